@@ -151,6 +151,27 @@ Proof. vm_compute. repeat split. Qed.
 Example C13_p_accept_example : chain_pR [(false, true)] = 1 / 100 /\ multi_pR [[true]] = 1 / 100.
 Proof. unfold chain_pR, multi_pR, emaR. simpl. split; Lra.lra. Qed.
 
+(* ---- the correspondence check evaluates the SAME generic model at exact rationals (numQ, normalised);
+   mapped to the reals with Q2R this evaluation is the real-number model of the theorems above ---- *)
+From Coq Require Import QArith Qreals.
+From MiniMcmc Require Import Proofs.Q2R.
+
+Theorem C13_q_tracker_is_real : forall xs : list Q,
+  Q2R (t_mean numQ (trk_run numQ xs)) = t_mean numR (trk_run numR (map Q2R xs)) /\
+  Q2R (t_msq numQ (trk_run numQ xs)) = t_msq numR (trk_run numR (map Q2R xs)) /\
+  t_n numQ (trk_run numQ xs) = t_n numR (trk_run numR (map Q2R xs)).
+Proof. exact q2r_trk_run. Qed.
+
+Theorem C13_q_variance_is_real : forall xs : list Q, (2 <= length xs)%nat ->
+  Q2R (trk_sm2 numQ (trk_run numQ xs)) = trk_sm2 numR (trk_run numR (map Q2R xs)).
+Proof. exact q2r_trk_sm2. Qed.
+
+Theorem C13_q_batch_rhat2_is_real : forall cs : list (list Q),
+  (2 <= length cs)%nat -> (forall c, In c cs -> (2 <= length c)%nat) ->
+  ~ (meanK numQ (map (bvar_unbiased numQ) cs) == 0)%Q ->
+  Q2R (batch_rhat2 numQ cs) = batch_rhat2 numR (map (map Q2R) cs).
+Proof. exact q2r_batch_rhat2. Qed.
+
 Print Assumptions C13_count.
 Print Assumptions C13_mean.
 Print Assumptions C13_sum_is_sum.
@@ -167,3 +188,6 @@ Print Assumptions C13_chain_p_first.
 Print Assumptions C13_chain_p_step.
 Print Assumptions C13_multi_p_step.
 Print Assumptions C13_p_accept_range.
+Print Assumptions C13_q_tracker_is_real.
+Print Assumptions C13_q_variance_is_real.
+Print Assumptions C13_q_batch_rhat2_is_real.
